@@ -50,6 +50,7 @@ class World:
         t.materialize(self.root)
         self.lifetime = lifetime
         ov = {("handlers.dir.DirHandler", "cachetime"): str(lifetime)}
+        self.handlers = handlers
         self.site = driver.Site(self.root, handlers=handlers, overrides=ov)
         self.twinsite = driver.Site(self.twin, handlers=handlers,
                                     overrides={("handlers.dir.DirHandler", "cachetime"): "0"})
@@ -126,6 +127,63 @@ class World:
             self.model[new].renamed = True
         self.trace.append("rename directory /%s -> /%s" % (d.decode(), new.decode()))
         self.chk.count("directory_renames")
+
+    def op_reconfigure(self) -> None:
+        """The server is restarted with another cache lifetime over the same tree (cache files and all): from now on
+        the *configured* lifetime decides, whatever it was when an entry was written."""
+        ages = [m.age for m in self.model.values() if m.snapshot is not None]
+        cands = [x for x in (0, 300, 1000, 2500, 6000) if x != self.lifetime and all(abs(a - x) >= 10 for a in ages)]
+        if not cands:
+            return
+        self.lifetime = self.rng.choice(cands)
+        self.site.close()
+        self.site = driver.Site(self.root, handlers=self.handlers,
+                                overrides={("handlers.dir.DirHandler", "cachetime"): str(self.lifetime)})
+        self.trace.append("restart with lifetime %d" % self.lifetime)
+        self.chk.count("restarts_with_another_lifetime")
+
+    def op_concurrent_rebuild(self) -> bool:
+        """Several requests arrive together for a directory whose entry has expired, while reading the directory is
+        slow (os.listdir takes 30 ms for it): every one of them shows the directory as it is now."""
+        import time
+        chk = self.chk
+        cands = [d for d in self.dirs if self.model[d].snapshot is not None and os.path.exists(self.cachepath(d))
+                 and (self.lifetime == 0 or self.model[d].age >= self.lifetime)]
+        if not cands:
+            return True
+        d = self.rng.choice(cands)
+        m = self.model[d]
+        sel = b"/" + d if d else b"/"
+        view = self.rng.choice(["gopher", "http", "gopherp+"])
+        current = self.render_current(d)
+        target = os.path.join(os.fsencode(self.root), d).rstrip(b"/")
+        real_listdir = os.listdir
+
+        def slow(path="."):
+            if os.fsencode(path).rstrip(b"/") == target:
+                time.sleep(0.03)
+            return real_listdir(path)
+
+        req, tls = reqs.render(view, sel)
+        os.listdir = slow
+        try:
+            replies = driver.concurrent_requests(self.site, [(req, tls)] * 4, nthreads=4)
+        finally:
+            os.listdir = real_listdir
+        self.trace.append("4 concurrent %s /%s on an expired entry" % (view, d.decode()))
+        chk.count("concurrent_rebuilds")
+        for rep in replies:
+            got = validate.normalize_ts(rep)
+            if got != current[view]:
+                stale = got == m.snapshot[view] and not m.renamed
+                chk.witness("C10/%s" % ("expired-entry-served-to-a-request-arriving-during-the-rebuild" if stale
+                                        else "concurrent-rebuild-differs-from-current-directory"),
+                            {"lifetime": self.lifetime, "view": view, "dir": sel, "age": m.age, "history": self.trace[-12:],
+                             "got": got[:300], "current": current[view][:300]})
+                return False
+        if os.path.exists(self.cachepath(d)):
+            m.snapshot, m.age, m.written_by, m.renamed = current, 0, view, False
+        return True
 
     def op_age(self) -> None:
         """Advance the clock by delta: every timestamp under the root moves back by delta
@@ -275,9 +333,10 @@ class World:
                 chk.witness("C10/%s" % ("stale-entry-served" if stale else "miss-differs-from-current-directory"),
                             dict(sample, current=current[view][:400]))
                 return False
-            if self.lifetime > 0:
-                if not os.path.exists(cp):
-                    chk.note_inconclusive("no cache file after a miss")
+            if self.lifetime > 0 and not os.path.exists(cp):
+                chk.note_inconclusive("no cache file after a miss")
+            if os.path.exists(cp):
+                # (also with lifetime 0 the file is rewritten: it matters once the lifetime is configured differently)
                 m.snapshot, m.age, m.written_by, m.renamed = current, 0, view, False
             chk.count("misses_verified")
             chk.case(("miss", view, m.age // 100, self.lifetime), sample if chk.evaluations % 97 == 0 else None)
@@ -370,6 +429,11 @@ def run_history(chk: Check, sc: Scratch, idx: int) -> None:
             elif r < 0.14:
                 if not w.op_request_while_rebuild_fails():
                     return
+            elif r < 0.18:
+                if not w.op_concurrent_rebuild():
+                    return
+            elif r < 0.21:
+                w.op_reconfigure()
             elif r < 0.5:
                 if not w.op_request():
                     return
